@@ -184,9 +184,30 @@ def run_case(ctx, case, out, k):
 def judge(ctx, cases):
     trace = os.path.join(ctx.scratch, "trace_%d.ndjson" % ctx._n)
     origin = []
-    with open(trace, "wb") as out:
-        for k, case in enumerate(cases):
-            origin += run_case(ctx, case, out, k)
+    ref_table(ctx)
+    build(ctx)
+    if any("free" in c for c in cases):
+        build(ctx, race=True)
+
+    class Buf:
+        def __init__(self):
+            self.parts = []
+
+        def write(self, b):
+            self.parts.append(b)
+
+    def one(kc):
+        k, case = kc
+        b = Buf()
+        return run_case(ctx, case, b, k), b.parts
+
+    import concurrent.futures as cf
+    # the cases are independent processes: three at a time (their order in the trace stays the order of the cases)
+    with cf.ThreadPoolExecutor(3) as ex, open(trace, "wb") as out:
+        for org, parts in ex.map(one, list(enumerate(cases))):
+            origin += org
+            for part in parts:
+                out.write(part)
     # long free-running runs are validated in small chunks of their own (they would otherwise all sit in the last chunk)
     all_lines = open(trace, "rb").readlines()
     small = [k for k, l in enumerate(all_lines) if len(l) <= 60000]
@@ -278,6 +299,11 @@ def main(ctx):
     cases.append({"free": {"n": 8, "ops": 60 if q else 400, "runs": 1 if q else 4, "procs": 0, "only": "(holder"}})
     cases.append({"free": {"n": 8, "ops": 24 if q else 150, "runs": 1 if q else 4, "procs": 0, "only": "(slow"}})
     cases.append({"free": {"n": 16, "ops": 12 if q else 80, "runs": 1 if q else 3, "procs": 2, "only": "(slow"}})
+    # Write-style entry points into slow / blocking destinations (documents below and above WriteLimit); option values and a
+    # pretty configuration SHARED by pointer, with a goroutine that snapshots their fields while the others run
+    cases.append({"free": {"n": 16, "ops": 40 if q else 300, "runs": 1 if q else 4, "procs": 0, "only": "(dest"}})
+    cases.append({"free": {"n": 16, "ops": 30 if q else 200, "runs": 1 if q else 3, "procs": 2, "only": "(dest"}})
+    cases.append({"free": {"n": 12, "ops": 50 if q else 400, "runs": 1 if q else 4, "procs": 0, "only": "(shared"}})
     recs = judge(ctx, cases)
     for r in recs:
         ctx.add(r["api"], r["kind"], r["locus"], r["witness"], case=r["case"], detail=r.get("detail"))
@@ -291,7 +317,7 @@ def main(ctx):
                        "around 1024 / 4096 / 65536 bytes) and focused menus in fresh processes (nested recomposer types on first "
                        "use, shared filters with multi-valued operands, buffer-returning calls); every recorded run "
                        "judged by TLC. distinct_nontrivial = distinct program tuples replayed."
-                       % ("pool.Get/pool.Put gates (hooks present) and whole calls" if hooks else "whole calls (no hooks in the tree)", 120))
+                       % ("pool.Get/pool.Put gates (hooks present) and whole calls" if hooks else "whole calls (no hooks in the tree)", 155))
     ctx.sample(scheds[len(scheds) // 2])
     ctx.sample(cases[1])
     ctx.assumptions += [
